@@ -50,6 +50,7 @@ import math
 import multiprocessing as mp
 import os
 import random
+import re
 import shutil
 import tempfile
 import time
@@ -717,6 +718,13 @@ class SimulatorRun:
                 a = complex(s.prob_amplitude(BS(op[2]), BS(op[3])))
                 return [a.real, a.imag]
             return obs(g)
+        if kind == "probability_sv":        # evolve(StateVector) + a sum over the evolved vector
+            return obs(lambda: float(s.probability(parse_sv(op[2]), BS(op[3]))))
+        if kind == "amp_sv":                # one prob_amplitude(BasicState, ·) per term, one after the other
+            def g2():
+                a = complex(s.prob_amplitude(parse_sv(op[2]), BS(op[3])))
+                return [a.real, a.imag]
+            return obs(g2)
         raise ValueError(op)
 
     def apply(self, op):
@@ -868,8 +876,13 @@ class SimulatorRun:
                 pnr = op[3] in ("none", "pnr")
                 # the model covers inputs that survive trimming/filtering unchanged: single photon-number vectors
                 return ["probs_svd", pnr, generic, self.keys_of(svd_spec=op[2], can_mask=has_h and pnr)]
-            if kind == "evolve" or (kind == "probs_sv" and len(op[2]) > 1):
+            if kind in ("evolve", "probability_sv") or (kind == "probs_sv" and len(op[2]) > 1):
                 return ["evolve", self.keys_of(sv_terms=op[2], can_mask=has_h)]
+            if kind == "amp_sv":
+                # the terms in the order the vector is iterated; a vacuum term is answered before anything is touched
+                terms = [str(st) for st, _ in parse_sv(op[2])]
+                subs = [["direct", self.parts_of(t)] for t in terms if BS(t).n > 0]
+                return {"multi": subs} if subs else None
             if kind == "probs_sv":
                 return ["probs", self.parts_of(op[2][0][2])]
             if kind == "probs":
@@ -884,7 +897,7 @@ class SimulatorRun:
         raise ValueError(op)
 
     def expected(self, op):
-        return {"circ": self.uid, "h": self.cur_h, "o": self.oid, "raw": op[1] in ("probability", "amp")}
+        return {"circ": self.uid, "h": self.cur_h, "o": self.oid, "raw": op[1] in ("probability", "amp", "amp_sv")}
 
     def model_request(self, mops):
         return {"fam": "simulator", "fixed": True, "ops": mops}
@@ -959,10 +972,15 @@ def gen_simulator(rng, variant, nops):
                 ops.append(["q", "evolve", rng.choice(SV_POOL)])
             elif q < 0.88:
                 ops.append(["q", "probs_sv", rng.choice([s for s in SV_POOL if "{" not in s[0][2]])])
-            elif q < 0.94:
+            elif q < 0.91:
                 ops.append(["q", rng.choice(["probability", "probability", "amp"]),
                             rng.choice(["|1,1,0>", "|2,0,0>", "|{_:0},{_:1},0>", "|0,0,0>"]),
                             rng.choice(["|1,1,0>", "|0,1,1>", "|0,2,0>", "|{_:0},0,{_:1}>"])])
+            elif q < 0.94:
+                # the same two questions about a state vector (superposed or not)
+                ops.append(["q", rng.choice(["probability_sv", "amp_sv"]),
+                            rng.choice([sv for sv in SV_POOL if "{" not in sv[0][2]]),
+                            rng.choice(["|1,1,0>", "|0,1,1>", "|0,2,0>", "|1,0,1>"])])
             else:
                 ops.append(["q", "evolve_svd", [[0.5, rng.choice(SV_POOL)], [0.5, rng.choice(SV_POOL[:5])]]])
             if asked and rng.random() < 0.3:
@@ -1197,6 +1215,98 @@ def perfect_source(spec):
 
 
 PRECISIONS = [1e-3, 1e-2]
+SAMPLER = "CliffordClifford2017"        # the sampling engine: Processor.samples (no probs on it)
+
+
+def _canon_tags(text):
+    """the distinguishability tags a Source writes (`_:k`, k > 0) are fresh numbers of a counter: only which photons
+    of one state vector share a tag matters — renumbered in order of first appearance (`_:0` is the common mode)"""
+    names = {}
+
+    def ren(mo):
+        k = mo.group(1)
+        if k == "0":
+            return "_:0"
+        return "_:t%d" % names.setdefault(k, len(names) + 1)
+    return re.sub(r"_:(\d+)", ren, text)
+
+
+def c_svdist(svd):
+    """canonical form of an SVDistribution (annotations included, tag numbers canonicalised per state vector)"""
+    items = []
+    for sv, pr in svd.items():
+        names = _canon_tags(" ".join(str(st) for st, _ in sv)).split(" ")
+        terms = sorted([nm, complex(a).real, complex(a).imag] for nm, (_, a) in zip(names, sv))
+        items.append([[t[0] for t in terms], terms, float(pr)])
+    items.sort(key=lambda it: (it[0], round(it[2], 6)))
+    return [[it[1], it[2]] for it in items]
+
+
+def samples_arguments(proc):
+    """`Processor.samples` through the public entry point.  The drawn samples are random (their law is C09's); what
+    the call decides is everything it hands to the NoisySamplingSimulator it creates — recorded here at the public
+    methods of that class: the unitary of the circuit (phase noise applied), the photon filter, the post-selection,
+    the heralds, keep_heralds, the detectors, and the input distribution of the provider (for a (source, state)
+    provider: the distribution that source generates for that state).  The sampling itself runs (seeded, a few
+    samples, bounded shots); only the class of an exception it raises is kept."""
+    p = pc().pcvl
+    from perceval.simulators import NoisySamplingSimulator as NSS
+    rec = {"calls": []}
+    orig = {k: getattr(NSS, k) for k in ("set_circuit", "set_selection", "keep_heralds", "set_detectors", "samples")}
+
+    def set_circuit(self, circuit):
+        rec["calls"].append("set_circuit")
+        u = circuit.compute_unitary()
+        rec["unitary"] = [[[complex(x).real, complex(x).imag] for x in row] for row in u.tolist()]
+        return orig["set_circuit"](self, circuit)
+
+    def set_selection(self, min_detected_photons_filter=None, postselect=None, heralds=None):
+        rec["calls"].append("set_selection")
+        rec["filter"] = min_detected_photons_filter
+        rec["ps"] = None if postselect is None else str(postselect)
+        rec["heralds"] = None if heralds is None else sorted([int(k), int(v)] for k, v in heralds.items())
+        return orig["set_selection"](self, min_detected_photons_filter=min_detected_photons_filter,
+                                     postselect=postselect, heralds=heralds)
+
+    def keep_heralds(self, value):
+        rec["calls"].append("keep_heralds")
+        rec["keep_heralds"] = bool(value)
+        return orig["keep_heralds"](self, value)
+
+    def set_detectors(self, detector_list):
+        rec["calls"].append("set_detectors")
+        rec["detectors"] = None if detector_list is None else \
+            [None if d is None else [type(d).__name__, d.type.name] for d in detector_list]
+        return orig["set_detectors"](self, detector_list)
+
+    def samples(self, provider, max_samples, max_shots=None, progress_callback=None):
+        rec["calls"].append("samples")
+        if isinstance(provider, tuple):
+            src, st = provider
+            rec["provider"] = c_svdist(src.generate_distribution(st))
+        else:
+            rec["provider"] = c_svdist(provider)
+        rec["max"] = [max_samples, max_shots]
+        p.random_seed(20261001)
+        try:
+            r = orig["samples"](self, provider, max_samples, max_shots, progress_callback)
+            rec["sampling"] = "ok" if len(r["results"]) <= max_samples else "too-many-samples"
+        except Exception as e:
+            rec["sampling"] = "raises-" + exc_name(e)
+            raise
+        return r
+
+    new = {"set_circuit": set_circuit, "set_selection": set_selection, "keep_heralds": keep_heralds,
+           "set_detectors": set_detectors, "samples": samples}
+    try:
+        for k, f in new.items():
+            setattr(NSS, k, f)
+        proc.samples(6, max_shots=60)
+    finally:
+        for k, f in orig.items():
+            setattr(NSS, k, f)
+    rec["calls"] = sorted(rec["calls"])
+    return rec
 
 
 class ProcessorRun:
@@ -1206,7 +1316,8 @@ class ProcessorRun:
     ["noise", spec|None, "same"?] ("same": one NoiseModel object of the caller updated in place with set_value and
     assigned again) | ["noise_inplace", spec] (the held NoiseModel updated in place and NOT assigned again) |
     ["filter", k] | ["ps", expr] | ["clear_ps"] | ["param", name, value] | ["det", mode, kind] |
-    ["set_circuit", [[mode, compspec]…]] | ["q", "probs", precision|None]
+    ["set_circuit", [[mode, compspec]…]] | ["q", "probs", precision|None] | ["q", "samples", None] (variant
+    "CliffordClifford2017" only: the answer is the argument list handed to the sampling simulator)
 
     The configuration is what the user set last: the structural calls in their order (components and heralds; a
     set_circuit replaces the components before it), detectors, post-selection, the noise VALUES AT THE LAST
@@ -1269,6 +1380,8 @@ class ProcessorRun:
         return proc
 
     def query(self, proc, op):
+        if op[1] == "samples":
+            return obs(lambda: samples_arguments(proc))
         return obs(lambda: c_res(proc.probs(precision=op[2])))
 
     def apply(self, op):
@@ -1446,6 +1559,8 @@ class ProcessorRun:
         if k == "filter":
             return ["filter", op[1]]
         if k == "q":
+            if op[1] == "samples":
+                return ["samples"]
             return ["probs", None if op[2] is None else PRECISIONS.index(op[2]) + 1]
         raise ValueError(op)
 
@@ -1457,7 +1572,8 @@ class ProcessorRun:
         return {"comps": self.comps_id, "her": self.her_id, "ps": self.ps_id if self.cfg["ps"] else 0,
                 "det": self.det_id, "phase": self.noise_id, "src": self.noise_id if bs else None,
                 "kind": "bs" if bs else "svd", "inp": self.input_id, "her_in": self.her_id if bs else 0,
-                "filt": self.stored_filter, "prec": None if op[2] is None else PRECISIONS.index(op[2]) + 1}
+                "filt": self.stored_filter, "prec": None if op[2] is None else PRECISIONS.index(op[2]) + 1,
+                "q": op[1]}
 
     def model_request(self, mops):
         return {"fam": "processor", "persist": True, "ops": mops}
@@ -1489,6 +1605,7 @@ def gen_processor(rng, variant, nops, auto=False):
     open known finding; the fresh processor is then given the stored value) and a perfect source until a filter is
     given"""
     M = rng.choice([2, 3, 3])
+    qkind = "samples" if variant == SAMPLER else "probs"
     heralds = {}
     if M == 3 and rng.random() < 0.5:
         heralds = {str(rng.randrange(M)): rng.choice([0, 1])}
@@ -1579,7 +1696,7 @@ def gen_processor(rng, variant, nops, auto=False):
             if held[0]:                     # … updated in place and NOT assigned again: nothing may change
                 ops.append(["noise_inplace", rng.choice([x for x in NOISES if x is not None] + INPLACE_NOISES)])
                 if rng.random() < 0.7:
-                    ops.append(["q", "probs", None])
+                    ops.append(["q", qkind, None])
         elif r < 0.43:
             if explicit[0] or rng.random() < 0.3:
                 ops.append(["filter", rng.choice([0, 1, 1, 2])])
@@ -1614,7 +1731,7 @@ def gen_processor(rng, variant, nops, auto=False):
                 blocked.add(k)
                 ops.append(rand_input())
         else:
-            ops.append(["q", "probs", None if rng.random() < 0.8 else rng.choice(PRECISIONS)])
+            ops.append(["q", qkind, None if rng.random() < 0.8 or qkind == "samples" else rng.choice(PRECISIONS)])
     return h
 
 
@@ -1714,10 +1831,10 @@ def fail_sig(h, f):
     if fam == "simulator" and op[1] == "probs_svd" and any(o[0] == "q" and o[1] in ("probs_svd", "evolve", "evolve_svd")
                                                           for o in h["ops"][:i]):
         return "simulator-mask-mode-cache"
-    if fam == "simulator" and op[1] in ("probs", "probability", "amp") and \
+    if fam == "simulator" and op[1] in ("probs", "probability", "amp", "amp_sv") and \
             any(o[0] == "q" and o[1] in ("probs_svd", "evolve", "evolve_svd") for o in h["ops"][:i]):
         return "simulator-leftover-mask"
-    if fam == "simulator" and op[1] == "evolve" and any(o[0] == "q" and o[1] in ("probs_svd", "evolve_svd")
+    if fam == "simulator" and op[1] in ("evolve", "probability_sv") and any(o[0] == "q" and o[1] in ("probs_svd", "evolve_svd")
                                                        for o in h["ops"][:i]):
         return "simulator-evolve-inherits-mask-mode"
     if fam == "processor" and "filter" not in ks and not asis:
@@ -1794,8 +1911,9 @@ def provenance_diff(fam, exp, mo):
     """-> None or (field, model value, tracked value)"""
     if fam == "processor":
         for k, v in exp.items():
-            if mo["res"].get(k) != v:
-                return (k, mo["res"].get(k), v)
+            got = mo.get("q") if k == "q" else mo["res"].get(k)
+            if got != v:
+                return (k, got, v)
         return None
     r = mo["res"]
     for part in r[0]:
@@ -2091,6 +2209,8 @@ PAIR_SIM_QUERIES = [
     ["q", "amp", "|{_:0},{_:1},0>", "|{_:0},0,{_:1}>"],
     ["q", "probs_sv", _SUP],
     ["q", "evolve_svd", [[0.5, [[1, 0, "|1,0,0>"]]], [0.5, [[1, 0, "|1,1,0>"]]]]],
+    ["q", "probability_sv", _SUP, "|1,1,0>"],
+    ["q", "amp_sv", _SUP, "|0,1,1>"],
 ]
 
 
@@ -2205,7 +2325,7 @@ def pairwise_processor(variant, with_herald, noise_only):
                     [["add_herald", 1, 1], ["with_input", "AUTO"]], [["add_herald", 0, 0], ["with_input", "AUTO"]]]
     base = {"family": "processor", "variant": variant, "params": PAIR_PARAMS,
             "init": {"m": 3, "heralds": heralds, "comps": PAIR_PROC_COMPS}}
-    q = ["q", "probs", None]
+    q = ["q", "samples" if variant == SAMPLER else "probs", None]
     def hist(a, b):
         return dict(base, ops=_expand([["with_input", ins[0]], ["filter", 1], a, q, b, q], 3, len(heralds)))
     hs = [hist(a, b) for a, b in _flavoured_pairs(steps, "noise")]
@@ -2217,7 +2337,7 @@ def pairwise_processor(variant, with_herald, noise_only):
                 # (a circuit whose phase shifter is followed by a beam splitter: the phase quantisation matters)
                 ext.append(dict(hist(a + ["same"], ["noise_inplace", y]),
                                 init={"m": 3, "heralds": heralds, "comps": PAIR_PROC_COMPS + [[0, ["BS", 0.9, 0.1]]]}))
-    if not noise_only:
+    if not noise_only and variant != SAMPLER:
         # a precision given to one call: the calls around it use the default one, whatever lies in between
         for b in steps + new:
             for p1, p2 in ((1e-2, None), (None, 1e-3), (1e-2, 1e-3)):
@@ -2236,7 +2356,7 @@ def pairwise_processor_auto(variant):
               [["add_herald", 1, 1], ["with_input", "AUTO"]], [["add_herald", 0, 0], ["with_input", "AUTO"]]]
     base = {"family": "processor", "variant": variant, "params": PAIR_PARAMS,
             "init": {"m": 3, "heralds": {}, "comps": PAIR_PROC_COMPS}}
-    q = ["q", "probs", None]
+    q = ["q", "samples" if variant == SAMPLER else "probs", None]
     return [dict(base, ops=_expand([["with_input", ins[0]], a, q, b, q], 3, 0)) for a in steps for b in steps]
 
 
@@ -2281,7 +2401,13 @@ def run(chk: core.Check):
                              "symbolic-slos-same-size-swap-earlier-input-asked-again",
                              "symbolic-slos-parameter-left-symbolic",
                              "other-size-circuit-same-photon-number-amplitude-query",
-                             "stepper-other-circuit-same-request-key-asked-again"]
+                             "stepper-other-circuit-same-request-key-asked-again",
+                             "processor-samples-after-reconfiguration", "pairwise-processor-samples",
+                             "processor-samples-automatic-filter-stored-then-requery",
+                             "processor-samples-noise-change-between-calls",
+                             "processor-samples-distribution-input",
+                             "simulator-state-vector-amplitude-after-masked-query",
+                             "simulator-state-vector-probability-after-earlier-query"]
     seed_rng = chk.rng
     jobs = []
     # corpus first
@@ -2313,7 +2439,7 @@ def run(chk: core.Check):
               for _ in range(chk.pick(30, 96))]
         for k in range(6):
             jobs.append((f"random:stepper:{v}", hs[k::6]))
-    for v in ["SLOS", "Naive", "MPS"]:
+    for v in ["SLOS", "Naive", "MPS", SAMPLER]:
         hs = [gen_processor(random.Random(seed_rng.getrandbits(64)), v, random.Random(seed_rng.getrandbits(32)).randint(8, min(nops, 40)))
               for _ in range(chk.pick(30, 120))]
         hs += [gen_processor(random.Random(seed_rng.getrandbits(64)), v, random.Random(seed_rng.getrandbits(32)).randint(8, min(nops, 30)),
@@ -2335,7 +2461,7 @@ def run(chk: core.Check):
     for v, stride in (("SLOS", 1), ("Naive", 3)):
         for part in _chunks(part_of(pairwise_stepper(v), stride), 6):
             jobs.append((f"pairwise:stepper:{v}", part))
-    for v, stride in (("SLOS", 1), ("Naive", 3), ("MPS", 2)):
+    for v, stride in (("SLOS", 1), ("Naive", 3), ("MPS", 2), (SAMPLER, 1)):
         h0, e0 = pairwise_processor(v, False, False)
         h1, e1 = pairwise_processor(v, True, chk.pick(True, False))
         # the extended alphabet (distribution inputs, late heralds, in-place noise, precisions): complete in the
@@ -2345,7 +2471,7 @@ def run(chk: core.Check):
         hs = part_of(h0 + h1, stride) + part_of(ext, 3 * stride)
         for part in _chunks(hs, 6):
             jobs.append((f"pairwise:processor:{v}", part))
-    for v, stride in (("SLOS", 2), ("Naive", 8)):
+    for v, stride in (("SLOS", 2), ("Naive", 8), (SAMPLER, 1)):
         for part in _chunks(part_of(pairwise_processor_auto(v), stride), 3):
             jobs.append((f"pairwise:processor-auto:{v}", part))
     jobs.sort(key=lambda j: (j[0] not in ("corpus", "directed"), -len(j[1])))         # largest jobs first
@@ -2525,6 +2651,33 @@ def account(chk, label, h, item):
                 pending = True
             given += 1
             q_since = False
+    if fam == "processor" and h["variant"] == SAMPLER:
+        if label.startswith("pairwise"):
+            chk.branch("pairwise-processor-samples")
+        q, reconf, noise_since, svd_in = False, False, False, False
+        answered = {t["i"] for t in item.get("trace", []) if t.get("status") == "res"}
+        for idx, o in enumerate(ops):
+            if o[0] == "q" and o[1] == "samples" and idx not in answered:
+                chk.count("processor_samples_queries", "refused-by-both-or-not-followed")
+            elif o[0] == "q" and o[1] == "samples":
+                chk.count("processor_samples_queries", "answered")
+                if q and reconf:
+                    chk.branch("processor-samples-after-reconfiguration")
+                if q and noise_since:
+                    chk.branch("processor-samples-noise-change-between-calls")
+                if q and item.get("auto"):
+                    chk.branch("processor-samples-automatic-filter-stored-then-requery")
+                if svd_in:
+                    chk.branch("processor-samples-distribution-input")
+                q, reconf, noise_since = True, False, False
+            elif o[0] != "q":
+                reconf = True
+                if o[0] == "noise":
+                    noise_since = True
+                if o[0] in ("with_input_svd", "with_input_sv"):
+                    svd_in = True
+                elif o[0] == "with_input":
+                    svd_in = False
     if fam == "processor":
         q = False
         svd_in = False
@@ -2557,6 +2710,7 @@ def account(chk, label, h, item):
     if fam == "simulator":
         last = None
         her, masked, filt = {}, False, 0
+        asked_before = False
         for o in ops:
             if o[0] == "q" and o[1] == "probs_svd":
                 mode = o[3] in ("none", "pnr")
@@ -2571,11 +2725,17 @@ def account(chk, label, h, item):
             elif o[0] == "filter":
                 filt = o[1]
             elif o[0] == "q":
-                if o[1] in ("probs", "probability", "amp") and masked:
+                if o[1] in ("probs", "probability", "amp", "amp_sv") and masked:
                     chk.branch("simulator-mask-free-query-after-masked-query")
-                if her and (o[1] in ("evolve", "evolve_svd", "probs_sv") or (o[1] == "probs_svd" and o[3] in ("none", "pnr"))):
+                    if o[1] == "amp_sv":
+                        chk.branch("simulator-state-vector-amplitude-after-masked-query")
+                if o[1] == "probability_sv" and asked_before:
+                    chk.branch("simulator-state-vector-probability-after-earlier-query")
+                asked_before = True
+                if her and (o[1] in ("evolve", "evolve_svd", "probs_sv", "probability_sv")
+                            or (o[1] == "probs_svd" and o[3] in ("none", "pnr"))):
                     masked = True
-                elif o[1] in ("probs", "probability", "amp"):
+                elif o[1] in ("probs", "probability", "amp", "amp_sv"):
                     masked = False
                 if o[1] == "evolve_svd" and filt + sum(her.values()) > min(photons(t[2]) for _, terms in o[2] for t in terms):
                     chk.branch("simulator-evolve-svd-filtered-vector")
